@@ -25,7 +25,7 @@ from harness.lib.core import VERIF, source_sha
 from harness.props import c02_nm as nm
 
 LEVEL = 'proof'
-IMPORTS = 'Base.PyData Base.Expr Base.Interp Base.Stmts C02.Model C02.CondPrint C02.Spec C02.Remap C02.IndexDiff C02.Check'
+IMPORTS = 'Base.PyData Base.Expr Base.Interp Base.Stmts C02.Model C02.CondPrint C02.Spec C02.Remap C02.IndexDiff C02.Read C02.Check'
 
 TAGS = {
     1: 'lcs.diff differs from the model',
@@ -211,9 +211,10 @@ def rationalize(e):
     return e.xreplace({f: sympy.Rational(F(float(f))) for f in e.atoms(sympy.Float)})
 
 
-def parse_printed(text, lhs_ok=None):
+def tokens_of(text):
+    """tokens of printed code (None: not tokenizable); the grammar is read inside Coq (C02.Read)"""
     try:
-        return nm.parse_code(text)
+        return nm.tokens(text)
     except (nm.ParseError, nm.Unsupported):
         return None
 
@@ -234,14 +235,14 @@ def observe_print(spec, printer=None, perturb=None):
     info = {'exc': None}
     try:
         text = printer(a, set(Expr.symbol(d) for d in spec['defined']), None, None)
-        parsed = parse_printed(text)
+        parsed = tokens_of(text + '\n')
         if parsed is not None and perturb:
             parsed = perturb(parsed)
     except Exception as ex:  # the printer raised
         text, parsed = None, None
         info['exc'] = type(ex).__name__
     info['text'] = text
-    impl = 'None' if parsed is None else f'(Some {nm.term(parsed, names)})'
+    impl = 'None' if parsed is None else f'(Some {nm.toks_term(parsed, names)})'
     envs = ct.lst([ct.lst([ct.pair(names.p(k), ct.q(F(v))) for k, v in p.items()]) for p in spec['points']])
     term = (f"(mkP {ct.lst([names.p(d) for d in spec['defined']])} {names.p(spec['lhs'])} {eterm}\n  {impl}\n  {envs})")
     info['is_pw'] = isinstance(sc.to_sympy(a.expression), sympy.Piecewise)
@@ -298,11 +299,8 @@ def observe_cond(spec, translate=None, perturb=None):
     info = {'exc': None}
     try:
         text = translate(c)
-        p = nm.P(nm.tokenize(text))
-        parsed = p.cond()
-        if not p.at_end():
-            parsed = None
-        if parsed is not None and perturb:
+        parsed = [t for t in nm.tokens(text) if t != ('kw', 'NL')]
+        if perturb:
             parsed = perturb(parsed)
     except (nm.ParseError, nm.Unsupported):
         parsed = None
@@ -310,7 +308,7 @@ def observe_cond(spec, translate=None, perturb=None):
         text, parsed = None, None
         info['exc'] = type(ex).__name__
     info['text'] = text
-    impl = 'None' if parsed is None else f'(Some {nm.c_term(parsed, names)})'
+    impl = 'None' if parsed is None else f'(Some {nm.toks_term(parsed, names)})'
     envs = ct.lst([ct.lst([ct.pair(names.p(k), ct.q(F(v))) for k, v in p.items()]) for p in spec['points']])
     return f'(mkC {cterm} {impl} {envs})', info
 
@@ -488,7 +486,7 @@ def run_stream(ctx, kind, specs, label, quiet=False, **kw):
 from harness.props import c02_hist as hist   # noqa: E402
 from harness.props.c02_hist import CodeUnreadable, SkipCase   # noqa: E402
 
-HSTREAM = (hist.observe_hist, 'hcase', 'verdict_hist', 6)
+HSTREAM = (hist.observe_hist, 'hcase_t', 'verdict_hist_t', 6)
 # explanation tag -> (finding id, oracle tags it explains)
 HIST_CLASS = {28: ('C02-TRANS1-MISSING-K', {32, 38}),
               30: ('C02-SOLVER-NO-DES', {33, 40}),
@@ -537,8 +535,9 @@ def run(ctx):
     ctx.findings = list(byid.values())
     ok = ctx.build_gate(['C02'])
     ctx.trusted += [
-        'harness/props/c02_nm.py: reference reader of NM-TRAN abbreviated code (tokeniser, Fortran precedence, IF blocks, '
-        '$ABBR REPLACE) producing the nmstmt terms run by nm_exec — hand-written from the NM-TRAN documentation',
+        'harness/props/c02_nm.py: TOKENIZER of NM-TRAN abbreviated code only (comments, continuation lines, case, numbers, '
+        'subscripted variables, $ABBR REPLACE names, keywords, operator spellings, record splitting); the grammar (Fortran '
+        'precedence, IF blocks) is the Coq reader coq/theories/C02/Read.v, with read_emit proved against a reference emitter',
         'coq/theories/C02/Spec.v: ADVAN/TRANS flow tables, default observation compartments, parameter-name tables (NONMEM Users Guide)',
         'harness/lib/sym2coq.py + coqterm.py (conversion of real sympy trees to Gallina terms); harness/props/c02.py generators, '
         'name maps (THETA(i)/ETA(i)/EPS(i) by position, A_<name>(t) -> A(n) by compartment order) and classification',
@@ -665,7 +664,7 @@ def run_translator(ctx, update_py=None, label='gen'):
     gen.mkdir(parents=True, exist_ok=True)
     src = update_py or (core.REPO / 'src/pharmpy/model/external/nonmem/update.py')
     names = ['trans_choice_valid', 'trans_choice_none_valid', 'pk_rename_lands', 'pk_rename_consistent',
-             'domain_size', 'rename_example_3_4']
+             'trans56_become_trans1', 'pk_rename_consistent_trans6', 'domain6_cells', 'domain_size', 'rename_example_3_4']
     ctx.obligations += len(names)
     try:
         sha = tr.translate(src, gen / 'PkConv.v')
